@@ -254,3 +254,110 @@ func (p *Program) ownerIs(owner, want string) bool {
 	}
 	return false
 }
+
+// cRequestWriters: who shapes the handshake request. The request's fields (Header, Host, …) are assigned, and its header
+// map is modified, only by handshakeRequest — in particular not by the redirect hook, which runs on every hop after the
+// request was built and verified against (the key, the offers and the caller's headers must survive a redirect).
+func cRequestWriters(p *Program, r *Report, rule string) {
+	isReq := func(t types.Type) bool {
+		n, ok := derefType(t).(*types.Named)
+		return ok && n.Obj().Pkg() != nil && n.Obj().Pkg().Path() == "net/http" && n.Obj().Name() == "Request"
+	}
+	fromReqHeader := func(v ssa.Value) bool {
+		for i := 0; i < 6; i++ {
+			switch x := v.(type) {
+			case *ssa.UnOp:
+				if fa, ok := x.X.(*ssa.FieldAddr); ok && isReq(fa.X.Type()) {
+					st := derefType(fa.X.Type()).Underlying().(*types.Struct)
+					return st.Field(fa.Field).Name() == "Header"
+				}
+				return false
+			case *ssa.ChangeType:
+				v = x.X
+			case *ssa.Phi:
+				if len(x.Edges) == 0 {
+					return false
+				}
+				v = x.Edges[0]
+			default:
+				return false
+			}
+		}
+		return false
+	}
+	n := 0
+	for _, fn := range p.Funcs {
+		for _, b := range fn.Blocks {
+			for _, in := range b.Instrs {
+				what := ""
+				switch x := in.(type) {
+				case *ssa.Store:
+					if fa, ok := x.Addr.(*ssa.FieldAddr); ok && isReq(fa.X.Type()) {
+						st := derefType(fa.X.Type()).Underlying().(*types.Struct)
+						what = "store Request." + st.Field(fa.Field).Name()
+					}
+				case *ssa.MapUpdate:
+					if fromReqHeader(x.Map) {
+						what = "update of Request.Header"
+					}
+				case ssa.CallInstruction:
+					cc := x.Common()
+					if cal := cc.StaticCallee(); cal != nil && cal.Signature.Recv() != nil && len(cc.Args) > 0 && fromReqHeader(cc.Args[0]) {
+						switch cal.Name() {
+						case "Set", "Add", "Del":
+							what = "Request.Header." + cal.Name()
+						}
+					}
+				}
+				if what == "" {
+					continue
+				}
+				for _, owner := range p.ownersOf(fn) {
+					n++
+					r.Check(rule, owner, what, p.InstrPos(in), p.ownerIs(owner, "handshakeRequest"),
+						"the handshake request is shaped only by handshakeRequest: its header, Host and the other fields are not rewritten afterwards (not by the redirect hook either, which runs after the key, the offers and the caller's headers were put in place)",
+						what+" in "+owner)
+				}
+			}
+		}
+	}
+	if n < 5 {
+		r.Undecide("%s: only %d writes of the handshake request found (expected at least 5)", rule, n)
+	}
+}
+
+// cCloseFrameSites: a Close frame leaves only through the close writer (writeClose / writeCloseCtx), which marshals a
+// validated CloseError; a writeControl / writeFrame call with the constant opcode 8 anywhere else can carry a payload that
+// never went through CloseError.bytes (an unsendable code, a reason that is too long).
+func cCloseFrameSites(p *Program, r *Report, rule string) {
+	cw := p.closeWriter()
+	if cw == nil {
+		return
+	}
+	want := p.rawName(cw)
+	n := 0
+	for _, cs := range p.CallSites() {
+		if cs.Name != "Conn.writeControl" && cs.Name != "Conn.writeFrame" {
+			continue
+		}
+		isClose := false
+		for _, a := range cs.Instr.Common().Args {
+			if c, ok := a.(*ssa.Const); ok && c.Value != nil && c.Value.Kind() == constant.Int && strings.HasSuffix(typeString(c.Type()), "opcode") {
+				if v, ok := constant.Int64Val(c.Value); ok && v == 8 {
+					isClose = true
+				}
+			}
+		}
+		if !isClose {
+			continue
+		}
+		for _, owner := range p.ownersOf(cs.Fn) {
+			n++
+			r.Check(rule, owner, cs.Name+"(opClose)", p.InstrPos(cs.Instr), owner == want || p.ownerIs(owner, want),
+				"Close frames are written only by "+want+", from the bytes of a validated CloseError", "close frame written by "+owner)
+		}
+	}
+	if n < 1 {
+		r.Undecide("%s: no site writing a close frame found", rule)
+	}
+}
